@@ -21,6 +21,8 @@ import (
 	"io"
 	"net/http"
 	"net/http/httptest"
+	"os"
+	"path/filepath"
 	"regexp"
 	"strings"
 	"time"
@@ -790,7 +792,13 @@ func e2eFor(engine string) *e2e {
 	be := stack.NewBackend("A", "openai-compatible", true)
 	be.ModelsBody = func() []byte { return stack.OpenAIModels("m-stream") }
 	o, err := stack.Boot(stack.Opts{Engine: engine, Balancer: "priority", ModelDiscovery: true, Endpoints: []stack.EP{{B: be, Priority: 100}},
-		Mutate: func(c *config.Config) { c.Translators.Anthropic.PassthroughEnabled = false }})
+		Mutate: func(c *config.Config) {
+			c.Translators.Anthropic.PassthroughEnabled = false
+			// workers with an odd shard number run E4 with the request inspector (off by default) switched on: it taps the same stream
+			if report.Shard%2 == 1 {
+				c.Translators.Anthropic.Inspector = config.InspectorConfig{Enabled: true, OutputDir: filepath.Join(os.TempDir(), fmt.Sprintf("verif-c13-inspector-%d", os.Getpid())), SessionHeader: "X-Session-ID"}
+			}
+		}})
 	if err != nil {
 		res.Break("E4 boot: %v", err)
 		e2eWorld[engine] = nil
@@ -1104,5 +1112,6 @@ func main() {
 		"E1_noncontiguous_depth": depth - 1, "E2": "4 texts x 0..2 (4 thorough) tool calls x 3 argument values x all compositions of the text x argument cuts (<=2) x transport chunk {whole,1,2,3,7} x malformed line at every position"}
 	res.Info["rule"] = "every enumerated stream is fed to the real TransformStreamingResponse; states = distinct (block structure, stop reason) outcomes; every prefix of a sequence is itself an enumerated stream"
 	res.Assume("tool-call fragments contiguous per call for the full oracle; arbitrary interleavings only under the reduced oracle (no crash, terminates, message_start..message_stop frame)")
+	os.RemoveAll(filepath.Join(os.TempDir(), fmt.Sprintf("verif-c13-inspector-%d", os.Getpid())))
 	res.Finish()
 }
